@@ -209,7 +209,10 @@ SystemMaybe<std::vector<std::string>> Fs::glob(
     bool dir_only) {
   glob_t globbuf;
   std::vector<std::string> ret;
-  int flags = GLOB_NOSORT | GLOB_BRACE | GLOB_ERR;
+  // No GLOB_ERR: a directory that cannot be opened (most often one that does
+  // not exist below a literal or brace-alternative component) matches nothing;
+  // it must not abort the whole pattern and discard the other matches.
+  int flags = GLOB_NOSORT | GLOB_BRACE;
   if (dir_only) {
     flags |= GLOB_ONLYDIR;
   }
